@@ -1,4 +1,5 @@
 """C20 — invalid WN-LMF is rejected as a whole; scans agree with full loads."""
+import os
 import random
 import re
 import common
@@ -146,6 +147,45 @@ def run(rep, tier, build, replay=None):
                 if sc != full:
                     rep.fail('scan_lexicons() differs from the lexicons of a full load', case,
                              {'scan': sc, 'load': full})
+    # ---- the documents of Proofs/LmfRequired.v (one per assert / conversion of the _validate* functions, plus accepted
+    # neighbours): the verdict proved for the model by vm_compute (`Example <name>_verdict`) is compared with the real
+    # wn.lmf.load on the same document; a rejected one must also be rejected by wn.add() with the database unchanged
+    import lmfreq_cases
+    rq_verdict, rq_defs, rq_fault = lmfreq_cases.coq_verdicts(os.path.join(common.COQ, 'Proofs', 'LmfRequired.v'))
+    rq_docs = lmfreq_cases.documents()
+    rq_jobs = [{'kind': 'load', 'text': x, 'try_add': True} for _, _, x, _, _ in rq_docs]
+    rq_outs = common.run_impl_parallel('run_lmf.py', [{'jobs': rq_jobs[i::common.NPROC]} for i in range(common.NPROC)])
+    rq_recs = [None] * len(rq_jobs)
+    for i in range(common.NPROC):
+        for j, rec in enumerate(rq_outs[i]):
+            rq_recs[i + j * common.NPROC] = rec
+    CODE = {'LMFError': -1, 'AssertionError': -6, 'KeyError': -3}
+    rq_bad = 0
+    for (nm, ver, text, coqdef, pred), rec in zip(rq_docs, rq_recs):
+        case = {'required-attribute case': nm, 'document': text}
+        if rq_defs.get(nm) != coqdef or rq_verdict.get(nm, (None,))[0] != ver or (pred and rq_fault.get(nm) != pred):
+            rep.broke('Proofs/LmfRequired.v no longer states the verdict of case %s of harness/lmfreq_cases.py' % nm)
+            continue
+        want = rq_verdict[nm][1]
+        got = 0 if rec['load'][0] == 'ok' else CODE.get(rec['load'][1], -4)
+        if got != want:
+            rq_bad += 1
+            if want != 0 and got == 0:
+                rep.fail('load() accepts a document that lacks something the loader requires (%s%s)'
+                         % (nm, ', ' + pred if pred else ''), case, {'load': 'ok', 'model': want})
+            else:
+                rep.broke('verdict of wn.lmf.load on case %s differs from the model (implementation %s, model code %d)'
+                          % (nm, rec['load'], want))
+        if rec['load'][0] != 'ok':
+            nontriv.add(common.canon_hash(text))
+            skipped = '<LexiconExtension' in text and '<Lexicon ' not in text
+            if rec['add'][0] == 'ok' and not (skipped and not rec['add'][1]):
+                rep.fail('add() accepts a document that load() rejects (%s)' % nm, case, {'add': rec['add']})
+            if not rec['db_unchanged']:
+                rep.fail('a rejected add changed the database (%s)' % nm, case, {'add': rec['add']})
+    rep.coverage['required_attribute_cases'] = len(rq_docs)
+    rep.coverage['required_attribute_verdict_mismatches'] = rq_bad
+    recs = recs + rq_recs
     # tie of Model/Scan.v to wn.lmf.scan_lexicons: generated, mutated and crafted files (raw bytes in, list of infos or
     # error class out)
     import scanmodel
